@@ -132,12 +132,23 @@ fn field_equivalence(a: &Acc, samples: &mut Vec<Value>) {
     let payloads: Vec<Vec<u8>> = vec![
         vec![], vec![0], vec![0xff], crate::asm::s_initcode(), crate::asm::ctx_initcode(), crate::asm::s_set(0, 1, 2, [1, 2, 0, 0]), vec![2], vec![6, 0], vec![0; 100], content(4, 300), content(3, 5000), vec![0x60, 0x00, 0x60, 0x00, 0xf3],
     ];
+    // large payloads (0.1 LIMIT zero-heavy, the full LIMIT of zeros, 0.7 LIMIT incompressible): once per kind
+    let n_small_payloads = payloads.len();
+    let mut payloads = payloads;
+    payloads.push(content(3, CALLDATA_LIMIT / 10));
+    payloads.push(content(0, CALLDATA_LIMIT));
+    payloads.push(content(4, CALLDATA_LIMIT * 7 / 10));
     let mut h = Inst::fresh();
     let mut b = Inst::fresh();
     for (pi, pl) in payloads.iter().enumerate() {
         let enc = Base64Bytes::from_bytes(Bytes::from(pl.clone())).expect("encode").to_string();
         for kind in ["deploy", "call", "transact"] {
             for pad in [0usize, 2] {
+                if pi >= n_small_payloads && (pad != 0 || (kind == "transact" && pl.len() > CALLDATA_LIMIT / 2)) {
+                    // (a signed transaction wrapping the payload is longer than the payload: the biggest ones
+                    // would exceed the limit as raw transactions)
+                    continue;
+                }
                 h.wipe();
                 b.wipe();
                 let mut outs = Vec::new();
@@ -275,6 +286,27 @@ pub fn run(tier: &str, seed: u64) -> i32 {
     bounded(&a, &b64(2, &zstd(&bomb, false)), "zstd bomb 64 MiB without frame size");
     bounded(&a, &b64(1, &nada::encode(bomb.iter().cloned())), "nada bomb 64 MiB");
     drop(bomb);
+    // several zstd frames in one payload: the declared size of the first frame says nothing about the total
+    {
+        let half = zstd(&content(3, limit * 6 / 10), true);
+        let small = zstd(&content(3, 1000), true);
+        let mut two = half.clone();
+        two.extend_from_slice(&half);
+        bounded(&a, &b64(2, &two), "two zstd frames of 0.6 LIMIT each");
+        let mut many = Vec::new();
+        for _ in 0..1100 {
+            many.extend_from_slice(&small);
+        }
+        bounded(&a, &b64(2, &many), "1100 zstd frames of 1000 bytes");
+        let mut skippable = vec![0x50, 0x2a, 0x4d, 0x18, 4, 0, 0, 0, 1, 2, 3, 4];
+        skippable.extend_from_slice(&half);
+        skippable.extend_from_slice(&half);
+        bounded(&a, &b64(2, &skippable), "skippable frame followed by two frames of 0.6 LIMIT");
+        let mut ok2 = small.clone();
+        ok2.extend_from_slice(&small);
+        bounded(&a, &b64(2, &ok2), "two zstd frames of 1000 bytes");
+        forced += 4;
+    }
     for p in 3..=255u8 {
         bounded(&a, &b64(p, &[1, 2, 3]), "unknown prefix");
         a.evals.fetch_add(1, Ordering::Relaxed);
